@@ -156,3 +156,13 @@ def make_unit():
 
 UNIT = make_unit()
 UNIT.allowed_calls = {'is_empty', 'clone', 'len', 'as_slice', 'iter', 'ignored_reference_types', 'is_err', 'is_ok', 'is_some', 'is_none'}     # the last four: vstd specifications
+
+
+def native(workdir):
+    import cli_unsupported
+    return cli_unsupported.native(workdir)
+
+
+def replay_args(inp):
+    import cli_unsupported
+    return cli_unsupported.replay_args(inp)
